@@ -429,6 +429,7 @@ def run_check(modname, tier, verif_seed, nworkers, n_override=None, selftest=Tru
             "probes": probes,
             "probes_stuck_at_zero": stuck,
             "status_counts": status_counts,
+            "runs_not_evaluated_harness_error": status_counts.get("harness_error", 0),
             "other_property_violations_seen": other,
             "other_property_violation_examples": other_examples,
             "known_findings_hit": {k: v[1] for k, v in known_hit.items()},
@@ -456,6 +457,14 @@ def run_check(modname, tier, verif_seed, nworkers, n_override=None, selftest=Tru
         harness_errors.append(f"generator emits too many rejected inputs: {rej}/{len(results)}")
     if len(results) < n and not stopped_early:
         harness_errors.append(f"only {len(results)} of {n} runs completed")
+    # isolated harness errors of single runs (a generator or oracle bug on a rare input) are listed, counted in the
+    # evidence and tolerated up to 0.5 % of the runs; anything else (determinism, dead workers, many errors) fails
+    run_errs = [h for h in harness_errors if h.startswith("run ")]
+    other_errs = [h for h in harness_errors if not h.startswith("run ")]
+    if run_errs and not other_errs and len(run_errs) <= max(1, len(results) // 200) and rc == 0:
+        for h in run_errs[:5]:
+            print("HARNESS-NOTE (run not evaluated)", h[:1500])
+        harness_errors = []
     if harness_errors and rc == 0:
         for h in harness_errors[:10]:
             print("HARNESS-ERROR", h)
